@@ -2,10 +2,12 @@ package props
 
 import (
 	"bytes"
+	"crypto/sha256"
 	"encoding/hex"
 	"fmt"
 	"os"
 	"path/filepath"
+	"runtime/debug"
 	"sort"
 	"strings"
 
@@ -50,6 +52,8 @@ type C06Case struct {
 	// replay: only this crash point of the last generation
 	Point *C06Point `json:"point,omitempty"`
 	Tier  string    `json:"tier,omitempty"`
+	// Big: large-block case (round 5): writes are torn at the class of lengths of c06TornBig in both tiers
+	Big bool `json:"big,omitempty"`
 }
 
 func (c C06Case) nGens() int {
@@ -333,6 +337,23 @@ func c06Class(se *c06Sess, i, t int) string {
 			// LdWrite issues exactly three writes per section (length, CID, data - the data write is
 			// issued even when empty); Truncate never happens inside a put
 			part = []string{"varint", "cid", "data"}[ord%3]
+			if n%3 != 0 {
+				// another write pattern (coalesced, chunked, extra writes): name the write by what it carries
+				part = "other"
+				for _, p := range se.puts {
+					if p.call != r.Call {
+						continue
+					}
+					switch {
+					case len(r.Data) > 0 && bytes.Equal(r.Data, p.blk.Data):
+						part = "data"
+					case bytes.Equal(r.Data, p.blk.Raw):
+						part = "cid"
+					case bytes.Equal(r.Data, refcar.PutUvarint(uint64(len(p.blk.Raw)+len(p.blk.Data)))):
+						part = "varint"
+					}
+				}
+			}
 		case "open":
 			if r.Synthetic {
 				part = "pragma"
@@ -419,6 +440,79 @@ func c06Torn(r drv.Rec, tier string, exhaustiveData bool) []int {
 		}
 	}
 	return out
+}
+
+// c06TornBig: torn lengths of record r in a large-block case (round 5). Writes of up to 64 bytes are torn at
+// every length; a larger write at {1, 2, mid, len-2, len-1}, one byte before, at and one byte after every power
+// of two >= 64 inside the write (the sizes at which a buffered / chunked / thresholded write path changes
+// behaviour), and in the thorough tier at every multiple of the page size (4 KiB; of 64 KiB for writes over
+// 1 MiB). Never at every length: the exhaustive tearing of a data write is the business of the 70 000-byte
+// sessions.
+func c06TornBig(r drv.Rec, tier string) []int {
+	out := c06Torn(r, tier, false)
+	n := len(r.Data)
+	if r.Kind == "truncate" || n <= 64 {
+		return out
+	}
+	seen := map[int]bool{}
+	for _, t := range out {
+		seen[t] = true
+	}
+	add := func(t int) {
+		if t > 0 && t < n && !seen[t] {
+			seen[t] = true
+			out = append(out, t)
+		}
+	}
+	for p := 64; p < n; p <<= 1 {
+		add(p - 1)
+		add(p)
+		add(p + 1)
+	}
+	if tier == "thorough" {
+		step := 4096
+		if n > 1<<20 {
+			step = 65536
+		}
+		for t := step; t < n; t += step {
+			add(t)
+		}
+	}
+	sort.Ints(out)
+	return out
+}
+
+// c06BigMaxSection is the largest section the default options let a reader accept
+// (DefaultMaxAllowedSectionSize, 8 MiB): the largest block whose Get the statement can demand.
+const c06BigMaxSection = 8 << 20
+
+// c06BigPut is the op that puts the block whose DATA is dataLen bytes long (raw sha2-256 CIDv1: 36 bytes).
+func c06BigPut(dataLen int) string { return fmt.Sprintf("put:L%d", dataLen+36) }
+
+// c06HasBig: some op of the session puts a block of the large-block dimension (section over 70 000 bytes,
+// the largest block of the other sessions).
+func c06HasBig(ops []string) bool {
+	for _, op := range ops {
+		for _, name := range strings.Split(op[strings.Index(op, ":")+1:], ",") {
+			var n int
+			if strings.HasPrefix(name, "L") {
+				fmt.Sscanf(name[1:], "%d", &n)
+			}
+			if n > 70000 {
+				return true
+			}
+		}
+	}
+	return false
+}
+
+// c06StateKey identifies a crash image; large images are identified by their SHA-256 rather than by their
+// content (distinct images stay distinct, the key of every image below the limit is unchanged).
+func c06StateKey(cs C06Case, img []byte) string {
+	if len(img) <= 1<<17 {
+		return fmt.Sprintf("%s|%s|%+v|%x", cs.Front, cs.Roots, cs.Opts, img)
+	}
+	return fmt.Sprintf("%s|%s|%+v|%d:sha256:%x", cs.Front, cs.Roots, cs.Opts, len(img), sha256.Sum256(img))
 }
 
 // c06GenModel is what one generation did up to its cut.
@@ -523,6 +617,80 @@ type c06Img struct {
 	// leaves the writer in front of a stale tail (padding hole + old index bytes)
 	staleTail bool
 	depth     int // 1 = image left behind by a refused reopen
+	// scratch (large-block cases): buffers reused from one crash image of the case to the next
+	scratch *c06Scratch
+}
+
+// c06Scratch: per-case buffers of the large-block cases, so that a case does not allocate two buffers of the
+// size of the file per crash point. img is the image under judgement, after[d] the file as the refused reopen
+// of depth d left it.
+type c06Scratch struct {
+	img   []byte
+	after [2][]byte
+}
+
+// c06ReadFile reads path, into the scratch buffer of this depth when there is one.
+func (m *c06Img) readFile(path string) []byte {
+	if m.scratch == nil || m.depth > 1 {
+		b, _ := os.ReadFile(path)
+		return b
+	}
+	f, err := os.Open(path)
+	if err != nil {
+		return nil
+	}
+	defer f.Close()
+	buf := m.scratch.after[m.depth][:0]
+	if st, err := f.Stat(); err == nil && int64(cap(buf)) < st.Size() {
+		buf = make([]byte, 0, st.Size()+st.Size()/8)
+	}
+	for {
+		if len(buf) == cap(buf) {
+			buf = append(buf, 0)[:len(buf)]
+		}
+		n, err := f.Read(buf[len(buf):cap(buf)])
+		buf = buf[:len(buf)+n]
+		if err != nil {
+			break
+		}
+	}
+	m.scratch.after[m.depth] = buf
+	return buf
+}
+
+// c06ImageInto is drv.Image building the image in buf's storage.
+func c06ImageInto(buf, base []byte, log []drv.Rec, i, t int) []byte {
+	img := append(buf[:0], base...)
+	apply := func(r drv.Rec, t int) {
+		if r.Kind == "truncate" {
+			if int(r.Off) < len(img) {
+				img = img[:r.Off]
+			}
+			return
+		}
+		d := r.Data
+		if t >= 0 && t < len(d) {
+			d = d[:t]
+		}
+		if end := int(r.Off) + len(d); end > len(img) {
+			// a write past the end extends the file with zeros (the storage may hold old bytes)
+			from := len(img)
+			if end > cap(img) {
+				img = append(img, make([]byte, end-from)...)
+			} else {
+				img = img[:end]
+				clear(img[from:])
+			}
+		}
+		copy(img[r.Off:], d)
+	}
+	for k := 0; k < i; k++ {
+		apply(log[k], -1)
+	}
+	if t > 0 && i < len(log) {
+		apply(log[i], t)
+	}
+	return img
 }
 
 func (m *c06Img) acked() []kit.Blk {
@@ -606,7 +774,7 @@ func c06CheckImage(x *kit.Ctx, m *c06Img) {
 			x.Note("refused-at-call-boundary: "+class+" "+front+fmt.Sprintf(" %+v", o), fmt.Sprintf("%v | gen1=%v cut1=%v gen2=%v cut2=%v gen3=%v point=%v", err, rc.Gen1, rc.Cut1, rc.Gen2, rc.Cut2, rc.Gen3, rc.Point))
 		}
 		// must not have destroyed any acknowledged block already on disk
-		after, _ := os.ReadFile(path)
+		after := m.readFile(path)
 		if name, ok, copyLost := c06SectionsIntact(img, after, acked); !ok {
 			fail("c06:"+class+":acked-block-destroyed-by-refused-reopen", "reopen failed (%v) and destroyed acknowledged block %s", err, name)
 		} else if copyLost {
@@ -617,7 +785,7 @@ func c06CheckImage(x *kit.Ctx, m *c06Img) {
 			if m.depth == 0 && !failed {
 				// the refused reopen issued writes of its own: what it left behind is again an image
 				// that a caller may try to reopen
-				c06CheckImage(x, &c06Img{rc: rc, img: after, gens: m.gens, class: class + ":after-refused-reopen", classA: m.classA, staleTail: m.staleTail, depth: 1})
+				c06CheckImage(x, &c06Img{rc: rc, img: after, gens: m.gens, class: class + ":after-refused-reopen", classA: m.classA, staleTail: m.staleTail, depth: 1, scratch: m.scratch})
 			}
 		}
 		return
@@ -1080,8 +1248,18 @@ func runC06(c any, x *kit.Ctx) {
 			panic(err)
 		}
 	}
+	var scratch *c06Scratch
+	if cs.Big {
+		scratch = &c06Scratch{}
+	}
 	checkPoint := func(i, t int) {
-		img := drv.Image(se.base, se.tr.Log, i, t)
+		var img []byte
+		if scratch != nil {
+			img = c06ImageInto(scratch.img, se.base, se.tr.Log, i, t)
+			scratch.img = img
+		} else {
+			img = drv.Image(se.base, se.tr.Log, i, t)
+		}
 		gens := append(append([]c06GenModel{}, prior...), c06ModelAt(se, i))
 		class := "end"
 		if i < len(se.tr.Log) {
@@ -1099,12 +1277,12 @@ func runC06(c any, x *kit.Ctx) {
 		rc.Point = &C06Point{i, t}
 		onDisk := c06IndexOnDisk(se, i, t)
 		m := &c06Img{rc: rc, img: img, gens: gens, class: class, clean: clean, classA: onDisk >= 1024,
-			staleTail: cs.Opts.ZeroEOF && cs.Opts.IndexPad > 0 && !cs.Opts.V1 && (stalePrior || onDisk > 0)}
+			staleTail: cs.Opts.ZeroEOF && cs.Opts.IndexPad > 0 && !cs.Opts.V1 && (stalePrior || onDisk > 0), scratch: scratch}
 		c06CheckImage(x, m)
 		if i == len(se.tr.Log) {
 			c06Mismatch(x, rc, img, m.acked(), class)
 		}
-		x.State(fmt.Sprintf("%s|%s|%+v|%x", cs.Front, cs.Roots, cs.Opts, img))
+		x.State(c06StateKey(cs, img))
 		if t > 0 {
 			x.Nontrivial(fmt.Sprintf("%s|%s|%+v|%v|%v|%v|%v|%v|%d|%d", cs.Front, cs.Roots, cs.Opts, cs.Gen1, cs.Cut1, cs.Gen2, cs.Cut2, cs.Gen3, i, t))
 		}
@@ -1118,7 +1296,11 @@ func runC06(c any, x *kit.Ctx) {
 			checkPoint(i, 0)
 			break
 		}
-		for _, t := range c06Torn(se.tr.Log[i], cs.Tier, cs.Tier == "thorough") {
+		ts := c06Torn(se.tr.Log[i], cs.Tier, cs.Tier == "thorough" && !cs.Big)
+		if cs.Big {
+			ts = c06TornBig(se.tr.Log[i], cs.Tier)
+		}
+		for _, t := range ts {
 			checkPoint(i, t)
 		}
 	}
@@ -1171,6 +1353,12 @@ func c06Cuts(dir, front string, o drv.Opts, roots []cid.Cid, se *c06Sess, tier s
 
 func genC06(tier string, emit func(any)) {
 	thorough := tier == "thorough"
+	if os.Getenv("GOMEMLIMIT") == "" {
+		// the large-block cases turn over images of several MiB per crash point; with the runner's relaxed GC
+		// setting (GOGC 800) the garbage would grow to a multiple of what the workers hold. A soft limit makes
+		// the collector run earlier instead (it never fails an allocation).
+		debug.SetMemoryLimit(4 << 30)
+	}
 	dir, err := os.MkdirTemp("/dev/shm", "c06gen")
 	if err != nil {
 		panic(err)
@@ -1243,7 +1431,7 @@ func genC06(tier string, emit func(any)) {
 			for _, cut := range c06Cuts(dir, front, o, roots, se, tier, !thorough, false) {
 				cut := cut
 				for _, g2 := range g2s {
-					emit(C06Case{Front: front, Opts: o, Roots: rootSet, Gens: 2, Gen1: g1, Cut1: &cut, Gen2: g2, Tier: tier})
+					emit(C06Case{Front: front, Opts: o, Roots: rootSet, Gens: 2, Gen1: g1, Cut1: &cut, Gen2: g2, Tier: tier, Big: c06HasBig(g1) || c06HasBig(g2)})
 				}
 			}
 		}
@@ -1274,16 +1462,114 @@ func genC06(tier string, emit func(any)) {
 			}
 		}
 	}
+	// round 5: blocks larger than every size at which a write path may change behaviour (buffering, chunking,
+	// pre-allocation, coalescing). The unchanged write path has no size constant of its own (LdWrite: three
+	// appends whatever the size); the sizes are therefore the powers of two from 4 KiB (page, bufio default)
+	// through 32/64 KiB (io.Copy / pipe buffers), 256 KiB (default chunk size of the block producers), 1 MiB
+	// and 2 MiB (block limits of the transports; section length prefix grows to 4 bytes) up to 4 MiB, plus the
+	// largest section a reader accepts by default (8 MiB): one block per octave, and one block above every
+	// monotone threshold ("from N bytes on") that can still be read back. The large block is put last so that
+	// only the crash images inside and behind its own writes are large.
+	var ladder []int
+	for k := 12; k <= 22; k++ {
+		ladder = append(ladder, 1<<k)
+	}
+	bigMax := c06BigMaxSection - 36
+	bigSessions := func(full bool) [][]string {
+		var l [][]string
+		sizes := append(append([]int{}, ladder...), bigMax)
+		if full {
+			// both sides of every power of two, both sides of the limit being the limit and one less
+			sizes = nil
+			for _, n := range ladder {
+				sizes = append(sizes, n-1, n, n+1)
+			}
+			sizes = append(sizes, bigMax-1, bigMax)
+		}
+		// largest first: these are the longest cases of the check, emitted before everything else so that the
+		// workers run them while the generator traces the first generations of the multi-generation cases
+		sort.Sort(sort.Reverse(sort.IntSlice(sizes)))
+		for _, n := range sizes {
+			l = append(l, []string{"put:a", c06BigPut(n)})
+		}
+		// large block in the middle of / in front of a session that is finalized (DataSize / index offsets of
+		// 3 and 4 significant bytes in the header writes), and inside one PutMany call
+		l = append(l, []string{"put:a", c06BigPut(1 << 18), "put:b", "F"}, []string{c06BigPut(1 << 20), "put:a", "F"},
+			[]string{"many:a," + strings.TrimPrefix(c06BigPut(1<<20), "put:") + ",b"})
+		return l
+	}
+	// the largest block, a chunk-sized one in a finalized session and one with a 4-byte length prefix, for the
+	// configurations / front-ends / root sets outside the reduced matrix
+	bigFew := [][]string{{"put:a", c06BigPut(bigMax)}, {"put:a", c06BigPut(1 << 18), "F"}, {"put:a", c06BigPut(1 << 21)}}
+	bigCfgs := []drv.Opts{{}, {DataPad: 3, IndexPad: 2, Codec: "sorted"}, {V1: true}}
+	allCfgs := append(append([]drv.Opts{}, base...), extra...) // (bsp / stw in thorough)
+	isBigCfg := func(o drv.Opts) bool {
+		for _, b := range bigCfgs {
+			if b == o {
+				return true
+			}
+		}
+		return false
+	}
+	// the configurations outside the reduced matrix (emitted among the other cases of the configuration, so that
+	// the cases with the largest block do not all run at the same time)
+	emitBigOther := func(front string, o drv.Opts) {
+		if isBigCfg(o) {
+			return
+		}
+		l := bigFew
+		if thorough {
+			l = bigSessions(false)
+		}
+		for _, s := range l {
+			emit(C06Case{Front: front, Opts: o, Gen1: append([]string{}, s...), Tier: tier, Big: true})
+		}
+	}
+	emitBig := func(front, rootSet string, o drv.Opts, list [][]string) {
+		for _, s := range list {
+			emit(C06Case{Front: front, Opts: o, Roots: rootSet, Gen1: append([]string{}, s...), Tier: tier, Big: true})
+		}
+	}
+	for _, front := range []string{"bs", "st"} {
+		for _, o := range bigCfgs {
+			emitBig(front, "", o, bigSessions(thorough))
+			// the session that writes the large block itself started by resuming (a complete image, finalized or not)
+			for _, g1 := range [][]string{{"put:a"}, {"put:a", "F"}} {
+				for _, g2 := range [][]string{{c06BigPut(1 << 18), "F"}, {c06BigPut(1 << 21)}} {
+					emit(C06Case{Front: front, Opts: o, Roots: "", Gens: 2, Gen1: g1, Gen2: g2, Tier: tier, Big: true})
+				}
+			}
+		}
+		emitBig(front, "five", drv.Opts{}, bigFew)
+		emitBig(front, "empty", drv.Opts{V1: true}, bigFew)
+	}
+	for _, front := range []string{"bsp", "stw"} {
+		cfgs := bigCfgs
+		if thorough {
+			cfgs = allCfgs
+		}
+		for _, o := range cfgs {
+			emitBig(front, "", o, bigFew)
+		}
+	}
 	g1Complete := [][]string{{"put:a"}, {"put:a", "F"}, {"put:a", "put:L300", "F"}, manyF}
 	g1Crashed := [][]string{{"put:a", "F"}, {"put:a", "put:b"}, {"put:a", "put:L300", "F"}, {"many:a,b", "F"}}
 	g2Crashed := [][]string{{"put:b", "F"}, {"put:e"}}
+	// (round 5) ... and from every resumable crash image of a first generation
+	for _, front := range []string{"bs", "st"} {
+		for _, o := range bigCfgs {
+			emitGen2Crashed(front, "", o, g1Crashed[:1], [][]string{{c06BigPut(1 << 18)}})
+		}
+	}
 	for _, front := range []string{"bs", "st"} {
 		for _, o := range base {
+			emitBigOther(front, o)
 			emitSessions(front, "", o, sessions)
 			emitGen2Complete(front, "", o, g1Complete)
 			emitGen2Crashed(front, "", o, g1Crashed, g2Crashed)
 		}
 		for _, o := range extra {
+			emitBigOther(front, o)
 			if thorough {
 				// all sessions except the two with a 70 KB block (their exhaustive tearing is 70 000
 				// images each and exercises nothing that depends on these options)
@@ -1358,15 +1644,18 @@ func init() {
 		Run:    runC06,
 		Decode: kit.DecodeAs[C06Case],
 		Rule: "for every writing session of the bound (open, Put/PutMany incl. payloads > 255 and > 65535 bytes, duplicates, CIDv0 / sha2-512 / truncated / blake2b / identity CIDs, finalize) x option configurations x front-ends, and for second- and third-generation sessions that resume a complete or crashed image of the previous one: the REAL write order is recorded through the build-tag write seam plus file diffing (pragma, Truncate); " +
-			"EVERY crash image = every prefix of the log with the next write torn at every length (all lengths for writes <= 64 bytes, {1,2,mid,len-2,len-1} for larger data writes in quick, all in thorough) is reopened and judged per image: refusal must leave at least one intact copy of the section of every acknowledged block at its offset (what a refused reopen leaves behind is reopened once more); success must serve every acknowledged block, list them (AllKeysChan; for the storage front-end the insertion index, else any iterable index by multihash, else outcome beyond-statement:store-cannot-be-listed), serve nothing that was not put (all session blocks + 10 fixed probes, every listed key fetched; whole-CID keys under UseWholeCIDs), then Put(in-flight again), Put(an acknowledged block again), Put(c), Get, Finalize must give a strictly decodable archive whose sections are exactly those the model allows (acknowledged puts, a prefix of the interrupted call, the continuation, copies per the documented put rules; the same multiset in another order is the outcome beyond-statement:sections-in-another-order), whose index is sound (every record is a section with that digest) and covers every CID of the payload (copies of one CID need not all be indexed), and whose header fields follow the options; " +
-			"complete images are also reopened with mismatching roots / data padding (refusal must not destroy blocks); non-trivial = image with a torn write",
+			"EVERY crash image = every prefix of the log with the next write torn at every length (all lengths for writes <= 64 bytes, {1,2,mid,len-2,len-1} for larger data writes in quick, all in thorough; in the large-block cases in both tiers {1,2,mid,len-2,len-1} plus one byte before, at and one byte after every power of two >= 64 inside the write, in thorough also every multiple of 4 KiB / of 64 KiB for writes over 1 MiB) is reopened and judged per image: refusal must leave at least one intact copy of the section of every acknowledged block at its offset (what a refused reopen leaves behind is reopened once more); success must serve every acknowledged block, list them (AllKeysChan; for the storage front-end the insertion index, else any iterable index by multihash, else outcome beyond-statement:store-cannot-be-listed), serve nothing that was not put (all session blocks + 10 fixed probes, every listed key fetched; whole-CID keys under UseWholeCIDs), then Put(in-flight again), Put(an acknowledged block again), Put(c), Get, Finalize must give a strictly decodable archive whose sections are exactly those the model allows (acknowledged puts, a prefix of the interrupted call, the continuation, copies per the documented put rules; the same multiset in another order is the outcome beyond-statement:sections-in-another-order), whose index is sound (every record is a section with that digest) and covers every CID of the payload (copies of one CID need not all be indexed), and whose header fields follow the options; " +
+			"complete images are also reopened with mismatching roots / data padding (refusal must not destroy blocks); " +
+			"large blocks (round 5): sessions whose last / middle / first Put (or PutMany) carries a block of 2^k data bytes for every k in 12..22 (4 KiB .. 4 MiB; thorough: 2^k-1, 2^k, 2^k+1) and the largest block a reader accepts by default (section of 8 MiB; thorough also one byte less), i.e. a block above every size from which a write path might buffer, chunk, pre-allocate or reorder a large write, with every crash point of the recorded writes of that Put including whatever extra or reordered writes it issues; first generation and generations resuming a complete or crashed image; " +
+			"non-trivial = image with a torn write",
 		Bound: func(tier string) map[string]any {
 			return map[string]any{
 				"puts_per_session": "<=4 plus one 32-block session (quick) / plus more orders (thorough)",
 				"generations":      "1, 2 (from complete images and from every resumable crash image of 4 first generations), 3 (both earlier generations crashed; reduced configuration matrix in quick)",
-				"torn_lengths":     "all for writes <=64B; 5 per larger write (quick) / all (thorough); cuts of earlier generations: clean + 1 torn length per write (quick, and always for 3 generations) / all (thorough)",
+				"torn_lengths":     "all for writes <=64B; 5 per larger write (quick) / all (thorough); large-block cases, writes > 64 B: the 5 + {2^j-1, 2^j, 2^j+1 : 64 <= 2^j < len} (+ every multiple of 4 KiB, of 64 KiB over 1 MiB, in thorough), never all; cuts of earlier generations: clean + 1 torn length per write (quick, and always for 3 generations) / all (thorough)",
 				"configurations":   "8 base + 7 round-2 {ZeroEOF+IndexPad 2, ZeroEOF+IndexPad 2000+DataPad 3, UseWholeCIDs, AllowDuplicatePuts, V1+ZeroEOF, V1+StoreIdentity, Whole+AllowDup+StoreIdentity}; round-2 ones on a reduced session list in quick",
 				"front_ends":       "bs (OpenReadWriteFile), st (New/OpenReadableWritable) full; bsp (images reopened with OpenReadWrite(path), FinalizeReadOnly+Close), stw (NewWritable then OpenReadableWritable): reduced sessions, 3 configurations in quick / all in thorough",
+				"large_blocks":     "data of 2^12..2^22 bytes (11 sizes; thorough x {-1,0,+1}) and the 8 MiB section limit: full ladder + finalized / PutMany sessions + second generations (from complete images, and from every resumable crash image of one first generation) for front-ends bs, st x 3 configurations {default, padding+sorted index, CARv1 mode}; the other 14 configurations: 3 sessions {8 MiB limit, 256 KiB finalized, 2 MiB} in quick / full ladder in thorough; front-ends bsp, stw and root sets {} / 5 roots: the 3 sessions (3 configurations in quick, all in thorough for bsp/stw)",
 				"root_sets":        "{a} full; {} and 5 roots (2-byte header length prefix): reduced sessions x 3 configurations (quick) / 6 (thorough)",
 			}
 		},
@@ -1374,6 +1663,10 @@ func init() {
 			"later generations are enumerated only from images the front-end accepts to resume (the refusal of the others is judged by the previous generation's case)",
 			"a refusal at a clean call boundary is allowed by C06 (counted as outcome reopen-refused-at-call-boundary; C12 owns resumability)",
 			"writes of a Finalize call are classed by target offset (below 51 = CARv2 header, else index padding / index), not by their number or order; the class only names signatures (known finding class A)",
+			"size thresholds of a write path are covered as monotone thresholds (\"from N bytes on\", any N up to the 8 MiB section limit, by the largest block) and per power-of-two octave from 4 KiB to 4 MiB (one block per octave, three around each power in thorough); a size class narrower than an octave that does not contain a power of two is not enumerated",
+			"blocks whose section exceeds DefaultMaxAllowedSectionSize (8 MiB) are not put: reading them back is refused by the default options, so the statement's 'returns intact bytes' cannot be demanded of them",
+			"a large single write of Finalize (an index of thousands of blocks) is not enumerated: the largest index of the bound is the 32-block one; large single writes are covered for Put/PutMany only",
+			"the large-block cases tear the writes of all their blocks at the class of lengths given in the rule, not at every length (every length of a data write is covered by the 300- and 70 000-byte blocks of the other sessions)",
 			"resume.go's DataSize==0 branch is unreachable (Header.ReadFrom rejects it first) and is not claimed as covered"},
 	})
 }
